@@ -4,6 +4,7 @@ import (
 	"fmt"
 	"math"
 	"strconv"
+	"strings"
 	"time"
 )
 
@@ -33,7 +34,7 @@ func setWorker(cmdName string, args map[string]any, dsc *dataStoreCommand, get, 
 		return
 	}
 
-	if cmdName == "setnx" {
+	if strings.EqualFold(cmdName, "setnx") {
 		options |= SET_NOT_EXIST
 	}
 	if get {
@@ -47,7 +48,7 @@ func setWorker(cmdName string, args map[string]any, dsc *dataStoreCommand, get, 
 	if valueExists == VALUE_WRONG_TYPE {
 		output.data = wrongTypeError
 		hasError = true
-	} else if cmdName == "setnx" {
+	} else if strings.EqualFold(cmdName, "setnx") {
 		if val.data == nil {
 			output.data = respInt(0)
 		} else {
@@ -317,7 +318,7 @@ func fnMset(ctx *cmdContext, args map[string]any) (output respValue, err error) 
 	keyValuePairs, _ := args["data"].([]any)
 
 	options := bitflags(0)
-	if ctx.cmdName == "msetnx" {
+	if strings.EqualFold(ctx.cmdName, "msetnx") {
 		options = SET_NOT_EXIST
 	}
 
